@@ -68,6 +68,16 @@ var ladderRoots = []string{
 	"8/6k1/R3Q3/8/8/8/8/3K4 b - - 5 24",
 }
 
+// stalemates in which the stalemated side is materially ahead (its static evaluation is positive), and
+// positions one move before them: a quiescence search must rate them 0, not "at least the stand-pat"
+var richStalemates = []string{
+	"7k/8/8/8/8/p1p5/P1P5/KB6 w - - 0 1",
+	"kb6/p1p5/P1P5/8/8/8/8/7K b - - 0 1",
+	"7k/8/8/8/2p5/p7/P1P5/KB6 b - - 0 1",
+	"kb6/p1p5/P7/2P5/8/8/8/7K w - - 0 1",
+	"7k/8/8/8/8/p1p5/P1P4n/KB5R b - - 0 1",
+}
+
 type rootT struct {
 	b    *board.Board
 	desc string
@@ -193,6 +203,11 @@ func makeRoots(r *rand.Rand, n int, heavy, mates, ladders bool) []rootT {
 			}
 		}
 		ret = append(ret, rootT{b: b, desc: desc})
+	}
+	if !mates && !heavy {
+		for _, f := range richStalemates {
+			ret = append(ret, rootT{b: mk(f), desc: f})
+		}
 	}
 	return ret
 }
